@@ -44,6 +44,7 @@ def gen_codes(m, rng, job):
         run(m, {'op': 'scrub', 'leaves': [{'k': 'verb', 'v': str(c), 'as': rng.choice(['bracket', 'aset'])}]}, oplist)
     for c in (-1, -5, -256):
         run(m, {'op': 'scrub', 'leaves': [{'k': 'ints', 'v': [c], 'enc': 'int'}]}, oplist)
+        run(m, {'op': 'scrub', 'leaves': [{'k': 'ints', 'v': [c], 'enc': 'int'}], 'empty': True}, oplist)
         run(m, {'op': 'scrub', 'leaves': [{'k': 'ints', 'v': [1, c], 'enc': 'joined'}]}, oplist)
     singles = [1, 4, 22, 31, 39, 53, 97, 107]
     groups = [[38, 5, 200], [48, 5, 0], [58, 5, 255], [38, 2, 1, 2, 3], [48, 2, 255, 0, 9], [58, 2, 0, 0, 0]]
@@ -114,6 +115,7 @@ def gen_colours(m, rng, job):
            ' rgb(1,2,3)', 'colr256(1)', 'rgb(1.5,2,3)', 'rgb(0x10, 2f, 3)']
     for s in bad:
         run(m, {'op': 'scrub', 'leaves': [{'k': 'rgbs', 'v': s}]}, oplist)
+        run(m, {'op': 'scrub', 'leaves': [{'k': 'rgbs', 'v': s}], 'empty': True}, oplist)
     mixed = ['rgb(0x10, 32, 48)', 'rgb(16, 0x20, 48)', 'rgb(1, 0xff, 3)', 'bg_rgb(0x1,0x2,3)', 'ul_rgb( 0xFF , 0x63 , 0x47 )',
              'rgb([100, 232, 170])', 'bg_rgb([100, 232, 170])', 'ul_rgb([255, 99, 71])', 'rgb(9055202)', 'dul_rgb(0xFF, 0x80, 0x00)']
     for s in mixed:
@@ -178,6 +180,8 @@ def gen_mixtures(m, rng, job):
             bad = rng.choice(['notacolor', 'bold_', 're d', 'bold;;x', 'rgb'])
             leaves.insert(rng.randrange(n + 1), {'k': 'name', 'v': bad, 'mname': '', 'known': 0})
             o['shape'] = []
+        if x < 0.18 and rng.random() < 0.4 and 'poison_first' not in o:
+            o['empty'] = True           # a bad setting is an error even when the text is empty
         run(m, o, oplist)
     return oplist, {}
 
